@@ -317,9 +317,16 @@ func parseBoth(kd string, in []byte, tr *Tracer) {
 	sort.Strings(names)
 	for _, nme := range names {
 		var rs res
-		pan, hung := guardT(func() { rs = fns[nme](append([]byte{}, in...)) }, nme)
+		buf := append([]byte{}, in...)
+		pan, hung := guardT(func() { rs = fns[nme](buf) }, nme)
 		if hung && skipped {
 			continue
+		}
+		if !hung {
+			// the octets were parsed out of a read buffer that is used again: the set that was returned stays what it was
+			for i := range buf {
+				buf[i] = 0xEE
+			}
 		}
 		tr.emit(Ev{"ev": "Parse", "kind": kd, "in": B(in), "res": sortedTlv(rs.xs), "err": rs.err, "panic": pan, "hang": hung, "site": nme})
 	}
